@@ -245,6 +245,38 @@ fn drive<B: Backend>(sum: &mut Summary, w: &mut CaseWriter, seen: &mut std::coll
     }
 }
 
+/// repeat (the third builder of the property): every count 0..=30 on short and long sources in the three representations, against
+/// std; the sources are prefixes of a longer text so that an over-read shows as foreign bytes
+fn repeats<B: Backend>(sum: &mut Summary, bk: &str) {
+    let text: &'static str = "abcdefghijklmnopqrstuvwxyz0123456789ABCDEFGHIJKLMNOPQRSTUVWXYZ";
+    let utext: &'static str = "a\u{e9}\u{e9}\u{20ac}\u{1F980}z and then some more text to make it long";
+    for len in [0usize, 1, 2, 3, 5, 8, 11, 12, 23, 24, 30] {
+        for n in 0..=30usize {
+            if len * n > 2000 { continue; }
+            for rep in ["borrowed", "owned"] {
+                sum.evaluations += 1;
+                let src = &text.as_bytes()[..len];
+                let h: HipByt<'static, B> = if rep == "borrowed" { HipByt::borrowed(src) } else { HipByt::from(src) };
+                let r = h.repeat(n);
+                let want = src.repeat(n);
+                if r.as_slice() != &want[..] || !r.is_normalized() || (r.is_allocated() && want.len() <= 23) {
+                    sum.violation(format!("{{\"what\":{},\"observed\":{},\"expected\":{}}}", jstr(&format!("repeat ty=byt bk={} source={} ({} bytes, {}) n={} prof={}", bk, hex(src), len, rep, n, profile())), jstr(&format!("{} normalized={} inline={}", hex(r.as_slice()), r.is_normalized(), r.is_inline())), jstr(&hex(&want))));
+                }
+            }
+        }
+    }
+    for cut in [1usize, 3, 5, 8] {      // prefixes of a text with multi-byte characters right after the cut
+        for n in 0..=12usize {
+            sum.evaluations += 1;
+            let src = &utext[..cut];
+            let r = HipStr::<B>::borrowed(src).repeat(n);
+            if r.as_str() != src.repeat(n) || std::str::from_utf8(r.as_bytes()).is_err() {
+                sum.violation(format!("{{\"what\":{},\"observed\":{},\"expected\":{}}}", jstr(&format!("repeat ty=str bk={} source={:?} n={} prof={}", bk, src, n, profile())), jstr(&hex(r.as_bytes())), jstr(&hex(src.repeat(n).as_bytes()))));
+            }
+        }
+    }
+}
+
 pub fn run(out_dir: &Path, tier: &str, seed: u64, _rest: &[String]) {
     silence_panics();
     let mut sum = Summary::default();
@@ -254,6 +286,7 @@ pub fn run(out_dir: &Path, tier: &str, seed: u64, _rest: &[String]) {
     drive::<Arc>(&mut sum, &mut w, &mut seen, "arc", tier, seed);
     drive::<Rc>(&mut sum, &mut w, &mut seen, "rc", tier, seed);
     drive::<Unique>(&mut sum, &mut w, &mut seen, "unique", tier, seed);
+    repeats::<Arc>(&mut sum, "arc"); repeats::<Rc>(&mut sum, "rc"); repeats::<Unique>(&mut sum, "unique");
     w.flush();
     sum.files = w.files.clone();
     sum.nontrivial = w.total as u64;
